@@ -278,8 +278,13 @@ func rateString(r M) string {
 		return "0"
 	}
 	q := new(big.Rat).SetFrac64(num(r, "num"), num(r, "den"))
-	return q.FloatString(6)
+	return q.FloatString(rateDecimals)
 }
+
+// rateDecimals: fee rates are rendered with 6 decimal places, or -- under the mixed rendering
+// profile -- padded to 30: the same value with a 30-digit coefficient, which is where an exact
+// multiplication (34 significant digits) starts to matter
+var rateDecimals = 6
 
 func critOf(c M) *baskettypes.DateCriteria {
 	switch str(c, "kind") {
